@@ -1240,6 +1240,37 @@ fn main() {
     if !restricted.is_empty() {
         cov.insert("restricted_windows".into(), json!({"what": "seeds longer than 512 bytes: truncation at every offset, per-byte operators on the first 256 and last 64 bytes only", "seeds": restricted}));
     }
+    // malformed, correctly signed bodies over HTTP against the live
+    // in-process server (httpx engine), merged into this evidence
+    if std::env::var("VKIT_FRAGMENT").is_err() {
+        let frag = std::env::temp_dir().join(format!("httpx-fragment-{}.json", std::process::id()));
+        let frag = if std::path::Path::new("/dev/shm").is_dir() { std::path::PathBuf::from(format!("/dev/shm/httpx-fragment-{}.json", std::process::id())) } else { frag };
+        let httpx = std::env::current_exe().unwrap().with_file_name("httpx");
+        let st = std::process::Command::new(&httpx)
+            .args(["--prop", "C15", "--tier", tier.as_str()])
+            .env("VKIT_FRAGMENT", &frag)
+            .env_remove("VKIT_WORKER")
+            .stdout(std::process::Stdio::null())
+            .stderr(std::process::Stdio::null())
+            .status();
+        match st {
+            Ok(s) if s.success() => {
+                let v: Value = serde_json::from_slice(&std::fs::read(&frag).unwrap_or_default()).unwrap_or(json!({}));
+                if let Some(fs) = v["failures"].as_array() {
+                    for f in fs {
+                        run.fail_n(f["sig"].as_str().unwrap(), f["what"].as_str().unwrap(), f["witness"].clone(), f["count"].as_u64().unwrap_or(1));
+                    }
+                }
+                let c = &v["evidence"]["coverage"];
+                cov.insert("http_level".into(), json!({"requests": c["evaluations"], "responses_by_status": c["responses_by_status"], "requests_per_route": c["requests_per_route"], "rule": c["rule"]}));
+                if c["evaluations"].as_u64().unwrap_or(0) == 0 {
+                    run.machinery("vacuous: httpx sent no request");
+                }
+            }
+            other => run.machinery(format!("httpx fragment failed: {:?}", other)),
+        }
+        let _ = std::fs::remove_file(&frag);
+    }
     let code = run.finish(cov);
     drop(wd);
     std::process::exit(code);
